@@ -168,7 +168,7 @@ def run(ctx):
     try:
         for i in range(ctx.n(300)):
             slash = (i % 10 == 0)
-            g = gen.random_graph(rng, slash=slash)
+            g = gen.random_graph(rng, slash=slash, share_p=0.2)
             target = rng.choice(["str", "path", "bytesio"])
             case = {"op": "file_rt", "graph": g, "target": target}
             ctx.case(case); ctx.count("graphs"); ctx.count("target_" + target)
